@@ -25,7 +25,7 @@ func init() {
 		"(Polygon Bor only inside one span and sprint: membership in the snapshot set of the trust root, proposer/backup difficulty N-succession, extra layout, parent/height, fork choice; it has no recent-signer rule, and sprint-end headers / span changes need Heimdall proofs and are not generated). A plan is: register the chain, install the trust root (epoch header), then steps " +
 		"hon/fork (extend a tip / branch off up to 4 blocks behind a tip of the simulated chain with a validly sealed header; validator sets of 3-7 secp256k1 keys out of a universe of 9, " +
 		"epoch length 4-8, sets announced by epoch blocks or - MSC - changed by clique votes), bad (one faulty header of a given kind), sub (a relayer transaction carrying 1-10 headers, " +
-		"in or out of order, with gaps and duplicates), cut (commit a poly block), restart (clean node restart). After every block every generated header is looked up in the router's stored state; " +
+		"in or out of order, with gaps and duplicates), retry (missing honest headers one per transaction), cut (commit a poly block), restart (clean node restart). After every block every generated header is looked up in the router's stored state; " +
 		"whatever is stored is judged by the reference tree (parent stored, height, extra layout, sealer in the set in effect on that fork, recent-signer window floor(N/2), in-turn difficulty 2 / out-of-turn 1), " +
 		"the stored total difficulty is recomputed and the canonical index must lead to a stored header of maximal total difficulty. Non-trivial = at least 5 honest headers stored and at least one faulty header " +
 		"submitted while its parent was stored; distinct = digest of (router, per-header kind/outcome sequence, canonical head)."
@@ -150,6 +150,8 @@ func generate(rng *kernel.RNG, idx int, tier string) *kernel.Plan {
 			k := kinds[rng.Intn(len(kinds))]
 			if variants[p.Cfg["router"]].clique && rng.Chance(0.3) && !strings.Contains(skip, ",early_epoch_change,") {
 				k = kindIndex("early_epoch_change") // clique: sets change by votes at any block, probe the threshold often
+			} else if variants[p.Cfg["router"]].clique && rng.Chance(0.3) && !strings.Contains(skip, ",wrong_checkpoint_signers,") {
+				k = kindIndex("wrong_checkpoint_signers") // only clique checkpoints are verifiable: keep this kind frequent there
 			}
 			parentSel := int64(rng.Intn(6)) // mostly near the newest stored / generated headers
 			if rng.Chance(0.2) {
@@ -222,6 +224,10 @@ func generate(rng *kernel.RNG, idx int, tier string) *kernel.Plan {
 	add("cut")
 	subChunks(honest, 8)
 	add("cut")
+	// a relayer whose batch failed as a whole (one refused header rolls the transaction back)
+	// retries the missing headers one per transaction
+	add("retry", relayer())
+	add("retry", relayer())
 	if rng.Chance(0.3) {
 		add("restart", int64(rng.Intn(2)))
 	}
@@ -372,6 +378,25 @@ func (x *exec) step(st kernel.Step) bool {
 		if len(x.pend) >= 6 {
 			return x.cut()
 		}
+	case "retry":
+		// one transaction per header that the simulated validators produced, that is not stored
+		// and whose parent is stored (at most 10 per step)
+		if len(x.pend) > 0 && !x.cut() {
+			return false
+		}
+		k := 0
+		for _, n := range c.nodes[1:] {
+			if k < 10 && !n.noop && n.kind == "honest" && !n.stored && c.nodes[n.parent].stored {
+				n.submitted++
+				k++
+				x.pend = append(x.pend, &pendTx{tx: c.headersTx(x.h, x.h.User(1+mod(st.Arg(0), 3)), []*node{n}), nodes: []*node{n}})
+				if len(x.pend) >= 5 && !x.cut() {
+					return false
+				}
+			}
+		}
+		run.Logf("retry: %d headers", k)
+		return x.cut()
 	case "cut":
 		return x.cut()
 	case "restart":
